@@ -23,13 +23,17 @@ POOL = [1, 4, 5, 6, 7]
 def case_strategy():
     from hypothesis import strategies as st
     kd = st.tuples(st.sampled_from(['signing', 'signing', 'encryption', None]), st.sampled_from(POOL)).map(list)
-    fed = st.lists(st.lists(kd, max_size=3), min_size=2, max_size=4)
+    fed = st.one_of(st.lists(st.lists(kd, max_size=3), min_size=2, max_size=4), st.lists(st.lists(kd, max_size=3), min_size=2, max_size=4), st.just([]))   # [] = no metadata source at all
     msg = st.fixed_dictionaries({'issuer': st.integers(0, 4), 'key': st.sampled_from(POOL), 'keyinfo': st.sampled_from(['none', 'signer-cert', 'other-cert', 'signer-rsa', 'other-rsa', 'signer-cert']),
                                  'other': st.sampled_from(POOL), 'level': st.sampled_from(['response', 'assertion', 'both']), 'alg': st.sampled_from(['sha1', 'sha256']),
-                                 'r_issuer': st.sampled_from([None, None, None, 0, 1, 2, 3, 4])})
+                                 'r_issuer': st.sampled_from([None, None, None, 0, 1, 2, 3, 4]),
+                                 # another consumer of the same long-lived store asks for the issuer's certificates of this use just before the message arrives
+                                 'pre_lookup': st.sampled_from([None, None, 'encryption', 'signing'])})
     # where an entity's key descriptors live: an IdP role descriptor, a stand-alone attribute authority, or split (IdP descriptor without keys + AA descriptor with them)
     roles = st.lists(st.sampled_from(['idp', 'idp', 'aa', 'split']), min_size=4, max_size=4)
-    return st.fixed_dictionaries({'fed': fed, 'roles': roles, 'only_md': st.booleans(), 'messages': st.lists(msg, min_size=3, max_size=8)})
+    # certificate look-ups by another consumer of the store (an IdP encrypting for the peer, a metadata export ...) before the first message arrives: (entity, use)
+    warm = st.lists(st.tuples(st.integers(0, 3), st.sampled_from(['encryption', 'encryption', 'signing'])).map(list), max_size=4)
+    return st.fixed_dictionaries({'fed': fed, 'roles': roles, 'only_md': st.booleans(), 'messages': st.lists(msg, min_size=3, max_size=8), 'warm': warm})
 
 
 def run(case):
@@ -46,12 +50,18 @@ def run(case):
             ents.append({'entityid': IDPS[i], 'idp': {'keys': []}, 'aa': dict(aa, keys=keys)})
         else:
             ents.append({'entityid': IDPS[i], 'idp': {'keys': keys}})
-    md = build.entities_xml(ents)
+    md = build.entities_xml(ents) if ents else ''
     opts = {'only_use_keys_in_metadata': case['only_md'], 'want_response_signed': False, 'want_assertions_signed': False, 'want_assertions_or_response_signed': True}
     sp = spside.sp_for(opts, md=md)
     clock.set_now(now)
     labels = set()
     nt = False
+    for idx, use in case.get('warm', []):
+        if idx < len(fed):
+            try:
+                sp.metadata.certs(IDPS[idx], 'any', use)
+            except Exception:
+                pass
     for m in case['messages']:
         if m['other'] == m['key'] and m['keyinfo'].startswith('other-'):
             m = dict(m, keyinfo='signer-' + m['keyinfo'][6:])
@@ -134,6 +144,12 @@ def run_requests(case):
     clock.set_now(now)
     labels = set()
     nt = False
+    for idx, use in case.get('warm', []):
+        if idx < len(fed):
+            try:
+                sp.metadata.certs(IDPS[idx], 'any', use)
+            except Exception:
+                pass
     for m in case['messages']:
         issuer = SPS[m['issuer']] if m['issuer'] < len(fed) else 'https://sp-unknown.example.org'
         trusted = [k for u, k in fed[m['issuer']] if u in ('signing', None)] if m['issuer'] < len(fed) else []
